@@ -17,8 +17,10 @@ package jsondb
 //@   ensures old(sig.ID) != "" ==> result == nil && sig.ID == old(sig.ID)
 
 //@ func (*Scanner).AddSignature
-//@   requires WF0(s)
-//@   requires sig != nil ==> sig != s.db
+//@   include lockproto
+//@   protocol-only C11
+//@   requires [C18.inv] WF0(s)
+//@   requires [C18.inv] sig != nil ==> sig != s.db
 //@   modifies s
 //@   modifies s.db
 //@   modifies s.sigMap
@@ -28,7 +30,9 @@ package jsondb
 //@   ensures [C18.json.nil] sig == nil ==> result != nil
 
 //@ func (*Scanner).GetSignature
-//@   requires s != nil && (s.db != nil ==> WF(s))
+//@   include lockproto
+//@   protocol-only C11
+//@   requires [C18.inv] s != nil && (s.db != nil ==> WF(s))
 //@   ensures [C18.json.get] s.db != nil && (id in s.sigMap) ==> result1 == nil && result0 != nil && *result0 == s.db.Signatures[s.sigMap[id]]
 //@   ensures [C18.json.miss] (s.db == nil || !(id in s.sigMap)) ==> result1 != nil
 
@@ -37,8 +41,10 @@ package jsondb
 //@   ensures result != nil && fresh(result) && *result == old(*src)
 
 //@ func (*Scanner).AddSignatures
-//@   requires WF0(s)
-//@   requires s.db != nil ==> sref(sigs) != sref(s.db.Signatures)
+//@   include lockproto
+//@   protocol-only C11
+//@   requires [C18.inv] WF0(s)
+//@   requires [C18.inv] s.db != nil ==> sref(sigs) != sref(s.db.Signatures)
 //@   modifies s
 //@   modifies s.db
 //@   modifies s.sigMap
@@ -50,9 +56,9 @@ package jsondb
 //@   loop 1 modifies s.db
 //@   loop 1 modifies s.sigMap
 //@   loop 1 modifies sigs
-//@   loop 1 invariant 0 <= #i && #i <= len(sigs) && s.db != nil && s.db == pre(s.db) && (s.sigMap == pre(s.sigMap) || freshSincePre(s.sigMap))
-//@   loop 1 invariant WF(s) && sref(sigs) != sref(s.db.Signatures)
-//@   loop 1 invariant forall t in 0..#i :: (sigs[t].ID in s.sigMap) && ((forall u in t+1..#i :: sigs[u].ID != sigs[t].ID) ==> s.db.Signatures[s.sigMap[sigs[t].ID]] == sigs[t])
+//@   loop 1 invariant [C18.inv] 0 <= #i && #i <= len(sigs) && s.db != nil && s.db == pre(s.db) && (s.sigMap == pre(s.sigMap) || freshSincePre(s.sigMap))
+//@   loop 1 invariant [C18.inv] WF(s) && sref(sigs) != sref(s.db.Signatures)
+//@   loop 1 invariant [C18.inv] forall t in 0..#i :: (sigs[t].ID in s.sigMap) && ((forall u in t+1..#i :: sigs[u].ID != sigs[t].ID) ==> s.db.Signatures[s.sigMap[sigs[t].ID]] == sigs[t])
 
 // ---- C08: alerts produced by the JSON store's scans
 
@@ -65,21 +71,55 @@ package jsondb
 //@   ensures result == ((*results)[i].Confidence > (*results)[j].Confidence)
 
 //@ func (*Scanner).ScanTopology
-//@   requires s != nil && (s.db != nil ==> wfDB(s)) && wfTopo(topo)
-//@   requires s.matchThreshold > 0 && !isNaN(s.entropyTolerance) && s.entropyTolerance >= 0
+//@   include lockproto
+//@   protocol-only C11
+//@   requires [C08.inv] s != nil && (s.db != nil ==> wfDB(s)) && wfTopo(topo)
+//@   requires [C08.inv] s.matchThreshold > 0 && !isNaN(s.entropyTolerance) && s.entropyTolerance >= 0
 //@   ensures [C08.thr] forall k in 0..len(result0) :: justified(result0[k], s, topo, s.matchThreshold)
 //@   ensures [C08.sorted] forall a, b in 0..len(result0) :: a < b ==> result0[a].Confidence >= result0[b].Confidence
 //@   ensures [C08.noerr] result1 == nil
-//@   loop 1 invariant (sref(*results) == 0 || fresh(*results))
-//@   loop 1 invariant 0 <= #i && forall k in 0..len(*results) :: justified((*results)[k], s, topo, s.matchThreshold)
+//@   loop 1 invariant [C08.inv] (sref(*results) == 0 || fresh(*results))
+//@   loop 1 invariant [C08.inv] 0 <= #i && forall k in 0..len(*results) :: justified((*results)[k], s, topo, s.matchThreshold)
 
 //@ func (*Scanner).ScanTopologyExact
-//@   requires s != nil && (s.db != nil ==> wfDB(s)) && wfTopo(topo)
+//@   include lockproto
+//@   protocol-only C11
+//@   requires [C08.inv] s != nil && (s.db != nil ==> wfDB(s)) && wfTopo(topo)
 //@   ensures [C08.exact] result0 != nil ==> justified(*result0, s, topo, 0.99)
 //@   ensures [C08.noerr] result1 == nil
 
 //@ func (*Scanner).SetThreshold
-//@   requires s != nil
+//@   include lockproto
+//@   protocol-only C11
+//@   requires [C08.inv] s != nil
 //@   modifies s
 //@   ensures [C08.setthr] result == nil ==> s.matchThreshold == threshold && finite(threshold) && 0 <= threshold && threshold <= 1
 //@   ensures [C08.setthr] result != nil ==> *s == old(*s)
+
+// ---- C11: every access to the JSON store's state happens under its mutex
+//@ protect Scanner.db read [C11.guard] held >= 1 write [C11.guard] held == 2
+//@ protect Scanner.sigMap read [C11.guard] held >= 1 write [C11.guard] held == 2
+//@ protect Scanner.matchThreshold read [C11.guard] held >= 1 write [C11.guard] held == 2
+//@ protect Scanner.entropyTolerance read [C11.guard] held >= 1 write [C11.guard] held == 2
+
+//@ func (*Scanner).LoadDatabase
+//@   noframe
+//@   include lockproto
+//@   protocol-only C11
+//@   loop 1 modifies s.sigMap
+
+//@ func (*Scanner).SaveDatabase
+//@   noframe
+//@   include lockproto
+//@   protocol-only C11
+
+//@ func (*Scanner).ScanCandidates
+//@   noframe
+//@   include lockproto
+//@   protocol-only C11
+
+//@ func (*Scanner).GetDatabase
+//@   noframe
+//@   include lockproto
+//@   protocol-only C11
+//@   loop 1 modifies newDB.Signatures
